@@ -706,6 +706,55 @@ func leanStr(s string) string {
 	return b.String()
 }
 
+// applyDefaultsSkeleton lists the statements of ApplyDefaultConstraints with their nesting depth:
+// the three default-filling steps must stay independent `if`s (a switch or else-chain changes it).
+func (g *pcsGen) applyDefaultsSkeleton(file string) ([][2]string, error) {
+	f, err := parser.ParseFile(g.fset, file, nil, 0)
+	if err != nil {
+		return nil, err
+	}
+	var fd *ast.FuncDecl
+	for _, d := range f.Decls {
+		if x, ok := d.(*ast.FuncDecl); ok && x.Name.Name == "ApplyDefaultConstraints" && x.Recv != nil {
+			fd = x
+		}
+	}
+	if fd == nil || fd.Body == nil {
+		return nil, fmt.Errorf("ApplyDefaultConstraints not found in %s", file)
+	}
+	var out [][2]string
+	var walk func(l []ast.Stmt, d int)
+	walk = func(l []ast.Stmt, d int) {
+		for _, s := range l {
+			switch x := s.(type) {
+			case *ast.IfStmt:
+				init := ""
+				if x.Init != nil {
+					init = g.text(x.Init) + "; "
+				}
+				out = append(out, [2]string{fmt.Sprintf("if@%d", d), init + g.text(x.Cond)})
+				walk(x.Body.List, d+1)
+				if x.Else != nil {
+					out = append(out, [2]string{fmt.Sprintf("else@%d", d), ""})
+					if b, ok := x.Else.(*ast.BlockStmt); ok {
+						walk(b.List, d+1)
+					} else {
+						walk([]ast.Stmt{x.Else}, d+1)
+					}
+				}
+			case *ast.BlockStmt:
+				walk(x.List, d)
+			case *ast.AssignStmt:
+				out = append(out, [2]string{fmt.Sprintf("assign@%d", d), g.text(x)})
+			default:
+				out = append(out, [2]string{fmt.Sprintf("%T@%d", s, d), g.text(s)})
+			}
+		}
+	}
+	walk(fd.Body.List, 0)
+	return out, nil
+}
+
 func genPcsFacts(repo, out string, _ []string) error {
 	dir := filepath.Join(repo, "go", "common", "sgx", "pcs")
 	g := &pcsGen{fset: token.NewFileSet(), structs: map[string][]pfStructField{}, funcs: map[string]*ast.FuncDecl{},
@@ -818,6 +867,21 @@ func genPcsFacts(repo, out string, _ []string) error {
 		}
 	}
 	b.WriteString(strings.Join(rows, ",\n"))
-	b.WriteString("\n]\n\nend Generated.PcsFacts\n")
+	b.WriteString("\n]\n\n")
+	// 3. statement skeleton of (*TEEFeaturesSGX).ApplyDefaultConstraints (go/common/node/tee.go)
+	skel, err := g.applyDefaultsSkeleton(filepath.Join(repo, "go", "common", "node", "tee.go"))
+	if err != nil {
+		return err
+	}
+	b.WriteString("/-- Statement skeleton of (*TEEFeaturesSGX).ApplyDefaultConstraints: (kind@depth, text), in source order. -/\n")
+	b.WriteString("def applyDefaultConstraints : List (String × String) := [\n")
+	for i, e := range skel {
+		sep := ","
+		if i == len(skel)-1 {
+			sep = ""
+		}
+		b.WriteString(fmt.Sprintf("  (%s, %s)%s\n", leanStr(e[0]), leanStr(e[1]), sep))
+	}
+	b.WriteString("]\n\nend Generated.PcsFacts\n")
 	return os.WriteFile(out, []byte(b.String()), 0o644)
 }
